@@ -45,7 +45,20 @@ type ReplayFile struct {
 	Diff       string   `json:"diff,omitempty"`
 	Report     string   `json:"report,omitempty"` // race detector report (burst)
 	Minimised  string   `json:"minimised,omitempty"`
-	Identity   string   `json:"identity,omitempty"`
+	// Prefix: the violation needs the history of the worker process that found it (e.g. a
+	// cache that must fill up first): the seeded bursts first, first+stride, ..., last are
+	// regenerated from the seed and re-executed in one fresh process.
+	Prefix   *SeededPrefix `json:"seeded_prefix,omitempty"`
+	Identity string        `json:"identity,omitempty"`
+}
+
+type SeededPrefix struct {
+	Seed    uint64 `json:"seed"`
+	First   int64  `json:"first"`
+	Stride  int64  `json:"stride"`
+	Last    int64  `json:"last"`
+	Corrupt int    `json:"corrupt"`
+	Churn   int    `json:"churn"`
 }
 
 const replayFormat = "memefish-verif-replay/1"
